@@ -241,4 +241,34 @@ def run(ctx):
         run.instance(R5, {"fn": "api_impl::owner::cancel_tx", "obligation": "tx::cancel_tx is reached only on one branch of the test of update_wallet_state's Ok(bool)"}, held=held)
         if not held:
             run.finding(Finding(R5, oc.id, "the rollback no longer depends on the refresh having succeeded (a confirmed transaction could be cancelled on stale state)", site=oc.loc()))
+    R6 = "C05.R6"
+    run.rule(R6, "the rollback knows what a reserved output was before: an output reserved while still Unconfirmed (minimum_confirmations = 0) goes back to Unconfirmed, not to Unspent", floor=1)
+    OD6 = c.LW + "types::OutputData"
+    OS6 = c.LW + "types::OutputStatus"
+    lockf = ctx.fn(OD6 + "::lock")
+    cf6 = ctx.fn(UPD + "cancel_tx_and_outputs")
+    if lockf is None or cf6 is None:
+        run.error("C05.R6: OutputData::lock / cancel_tx_and_outputs not found")
+    else:
+        # what lock() remembers: any field of the record it writes besides status
+        written = {st["d"][1][-1]["n"] for bb in lockf.bbs for st in bb["s"] if st["k"] == "a" and st["d"][1] and isinstance(st["d"][1][-1], dict) and st["d"][1][-1].get("a") == OD6}
+        remembers = bool(written - {"status"})
+        # does lock() refuse anything but Unspent?
+        only_unspent = False
+        for x in cfg.comparisons(lockf):
+            pl, pr = vf.producers(lockf, x.l), vf.producers(lockf, x.r)
+            for a, b_ in ((pl, pr), (pr, pl)):
+                if vf.has_field(a, OD6, "status") and ("agg", OS6, "Unspent") in b_:
+                    only_unspent = True
+        # the rollback writes a constant status for a Locked record
+        consts = set()
+        for b, st in vf.field_assignments(cf6, OD6, "status"):
+            if st["r"]["k"] == "use":
+                consts |= {y[2] for y in vf.producers(cf6, st["r"]["o"]) if y[0] == "agg" and y[1] == OS6}
+            elif st["r"]["k"] == "agg":
+                consts.add(st["r"].get("var"))
+        held = remembers or only_unspent or consts != {"Unspent"}
+        run.instance(R6, {"fn": "OutputData::lock / cancel_tx_and_outputs", "obligation": "lock() remembers the previous status (or reserves Unspent outputs only), or the rollback does not write a constant", "lock writes": sorted(written), "rollback writes": sorted(map(str, consts))}, held=held)
+        if not held:
+            run.finding(Finding(R6, cf6.id, "an output reserved while still Unconfirmed (zero-confirmation spend) is written back as Unspent when the send is cancelled, and a refresh in between marks the never-mined reserved output Spent: cancelling is not a rollback for it", site=cf6.loc()))
     run.not_decided += ["'exactly what they were before' as an equality of balances (numeric, over histories)"]
